@@ -92,7 +92,9 @@ class Worker:
         for _ft, (mod, _fn) in router._EXTRACTOR_REGISTRY.items():
             importlib.import_module(mod)
         pkg = os.path.dirname(os.path.abspath(sharepoint2text.__file__)) + os.sep
-        self.rec.loops = c01_monitor.find_while_loops(pkg)
+        found = c01_monitor.find_while_loops(pkg)
+        self.rec.loops = {id(c): ls for c, ls in found.items()}
+        self.rec.loop_codes = {id(c): c for c in found}
         self.LoopOverrun = c01_monitor.LoopOverrun
         self.rec.install(line_events=False)
         self.classify = lambda e: c01_monitor.classify(e, self.fam)
@@ -170,6 +172,15 @@ class Worker:
         rec = self.rec
         op = job["op"]
         data = self.materialise(job)
+        # CPU budget of this job (20 s + 2 s/MB of the ACTUAL input): the soft RLIMIT_CPU moves forward
+        try:
+            soft = int(time.process_time() + 20.0 + 2.0 * len(data) / 1e6) + 2
+            self.resource.setrlimit(self.resource.RLIMIT_CPU, (soft, self.resource.RLIM_INFINITY))
+        except Exception:
+            pass
+        if op == "oledom":
+            from . import c01_mutators as M
+            return {"id": job.get("id"), "dom": M.ole_vector_evidence(data), "ev": [], "size": len(data)}
         if op == "clisub":
             return self.run_clisub(job, data)
         inject = None
@@ -231,7 +242,7 @@ class Worker:
         out["detail"] = rec.exc_detail[:6]
         if rec.loop_count:
             (lc, ll), ln_ = max(rec.loop_count.items(), key=lambda kv: kv[1])
-            out["loop_max"] = [lc.co_name, ll, ln_]
+            out["loop_max"] = [rec.loop_codes[lc].co_name, ll, ln_]
         if rec.loop_over:
             out["loop_over"] = list(rec.loop_over)
             out["ev"] = [e for e in ev if e["a"] not in ("Outcome", "CliOut")] + [{"a": "LoopOverrun"}]
@@ -338,13 +349,6 @@ def serve(wdir):
         job = json.loads(line)
         if job.get("op") == "quit":
             break
-        # CPU budget of this job: soft RLIMIT_CPU moves forward
-        try:
-            used = time.process_time()
-            soft = int(used + job.get("cpu", 60)) + 2
-            resource.setrlimit(resource.RLIMIT_CPU, (soft, resource.RLIM_INFINITY))
-        except Exception:
-            pass
         try:
             res = w.run(job)
         except MemoryError:
